@@ -75,7 +75,11 @@ func ZZ_C09_gc_pods() {
 	vanished := func(p *zzGCPod) bool { return p.local != 0 && p.api == 1 }
 	for pass := 1; pass <= 3; pass++ {
 		before := len(w.log)
+		unlocks := 0
+		zz.OnUnlock(&svc.RWMutex, func() { unlocks++ })
 		_ = svc.gcPods(context.Background())
+		zz.OnUnlock(&svc.RWMutex, nil)
+		zz.Assert(unlocks == 1, "a GC pass holds the service lock from its first decision to its last effect: the lock is released exactly once, at the end (no CNI request can run between 'the pod is gone' and the release of its addresses)")
 		zz.Assert(zz.LockState(&svc.RWMutex) == 0, "the service lock is released after a GC pass")
 		for _, e := range w.log[before:] {
 			zz.Assert(e.lock == -1, "GC effects happen with the service lock write-held (no request in flight)")
